@@ -22,7 +22,7 @@ PROPS = {
     },
     "C10": {
         "coq_targets": ["VM/ExecProofs.vo", "VM/LoopCount.vo"],
-        "streams": [("vm", VM_RESULT | VM_FUEL)],
+        "streams": [("vm", VM_RESULT | VM_STEPS | VM_FUEL)],
         "corr_is_violation": True,
         "rule": "vm: all programs of length <= 3 (quick) / <= 4 (thorough) over a 17-opcode alphabet, hand-written boundary families, type-aware random programs with loops/jumps/heaps, random decodable byte strings; distinct (program, heap) pairs",
         "assumptions": ["hash_single and Ed25519 verification are oracles answered from the implementation's own calls"],
